@@ -1,9 +1,11 @@
 // Engine registry: one line per engine that exists.
 void registerEquivEngine();
 void registerImportEngine();
+void registerAnnotEngine();
 
 extern "C" void cellsimRegisterEngines()
 {
     registerEquivEngine();
     registerImportEngine();
+    registerAnnotEngine();
 }
